@@ -42,6 +42,44 @@ impl Checker for C12 {
             if handle_op {
                 follows.push(ops[n - 1].clone());
             }
+            // EXT (review 2): a later call that succeeds without changing anything itself (stats; through a handle
+            // also flush): what the failed call left behind is compared, by the decoder, with the state before it
+            {
+                let mut quiet = vec![Op::Stats];
+                if handle_op {
+                    if let Some(Op::Write { h, .. } | Op::WriteAll { h, .. } | Op::Truncate { h }) = ops.last() {
+                        quiet.push(Op::Flush { h: *h });
+                    }
+                }
+                for q in quiet {
+                    let mut ops2 = ops.to_vec();
+                    ops2.push(q.clone());
+                    for k in 1..=ex.calls_last {
+                        let plan = harness::sess::Plan { fault: Some((k, 0x00FC_0000 + k as u32)), fault_op: Some(n - 1), ..self.plan() };
+                        let fx = harness::sess::run(cfg, &ops2, &plan);
+                        if fx.panic.is_some() || fx.fired_early.is_none() || !fx.completed {
+                            continue;
+                        }
+                        if !matches!(fx.outs.last(), Some(Ok(_))) {
+                            continue;
+                        }
+                        let (Some(Ok(a)), Some(Ok(b))) = (&ex.pre, &fx.post) else { continue };
+                        let fa = a.flat();
+                        let fb = b.flat();
+                        let differ = fa.len() != fb.len()
+                            || fa.iter().zip(fb.iter()).any(|((ka, na), (kb, nb))| ka != kb || na.is_dir != nb.is_dir || na.size != nb.size || na.content != nb.content)
+                            || a.free != b.free
+                            || a.owner != b.owner;
+                        if differ && fx.status_post & 1 == 0 {
+                            let kind = harness::explore::op_kind(&ops[n - 1]);
+                            let sig = format!("C12/after-storage-fault/dirty-bit-clear-at-later-quiet-call/{}/{}", kind, harness::explore::op_kind(&q));
+                            if !v.iter().any(|(s, _)| *s == sig) {
+                                v.push((sig, format!("status byte {:#04x}: device call {k} of {:?} failed ({:?}), then {:?} succeeded; the volume differs from its state before the failed call", fx.status_post, ops[n - 1], fx.outs.get(n - 1), q)));
+                            }
+                        }
+                    }
+                }
+            }
             for follow in follows {
             let mut ops2 = ops.to_vec();
             ops2.push(follow);
